@@ -203,8 +203,17 @@ def run_real(case):
         gen = 0
         while True:
             paths = []
+            same0 = set(case.get("same_id_as_0") or [])
             for i, f in enumerate(case["files"]):
                 p = _collision_name(tmp, i) if i in collide else None
+                if p is None and i in same0 and paths:
+                    # a DIFFERENT file whose 4-digit job id equals that of file 0 (crc32(path) % 10000 collides about
+                    # once in 10000 pairs): both are FLEX, so sharing the registry slot changes nothing - and it must
+                    # not cost any event
+                    import zlib
+                    h0 = zlib.crc32(paths[0].encode()) % 10000
+                    p = next((q for q in (os.path.join(tmp, f"f{i}_{j}.json") for j in range(200000))
+                              if zlib.crc32(q.encode()) % 10000 == h0), None)
                 if p is None and case.get("layout") == "dirs":
                     # one base name in per-file directories (run/rank0/trace.json, run/rank1/trace.json, ...)
                     p = os.path.join(tmp, f"d{i}" if gen == 0 else f"d{i}_g{gen}", "trace.json")
@@ -226,7 +235,7 @@ def run_real(case):
             try:
                 ing = MultifileIngest(source_uri=",".join(paths), show_warnings=False)
                 hs = [g.jobhash for g in ing.ingesters]
-                plain = [h for i, h in enumerate(hs) if i not in collide]
+                plain = [h for i, h in enumerate(hs) if i not in collide and i not in same0]
                 if gen < 20 and (len(set(plain)) != len(plain) or ing.jobhash in plain):
                     gen += 1
                     _quiet(ing)
@@ -495,7 +504,9 @@ def gen_wf(ctx: Ctx):
         u = U()
         k = ctx.rng.choice([1, 2, 2, 3, 3, 4, 5])
         case = {"files": [gen_wf_file(ctx, u, i) for i in range(k)]}
-        if ctx.rng.random() < 0.2:
+        if k >= 2 and ctx.rng.random() < 0.06:
+            case["same_id_as_0"] = sorted(ctx.rng.sample(range(1, k), ctx.rng.randint(1, min(2, k - 1))))
+        elif ctx.rng.random() < 0.2:
             case["layout"] = "dirs"
             if ctx.rng.random() < 0.5:
                 case["torch_last"] = True
